@@ -154,6 +154,48 @@ Section SweepSound.
   Qed.
 
   (* ---- out_loop: edges leaving at x ---- *)
+  Lemma out_step_inv j k x par used e par1 used1 :
+    inv j k x par used -> k < ne -> aget OO k = Ok e -> 0 <= e < ne -> erz e = x -> zat used e = 1 ->
+    (forall k0 d, nth k0 par1 d = if Nat.eqb k0 (Z.to_nat (ec e)) then TSK_NULL else nth k0 par d) ->
+    zlen par1 = zlen par ->
+    (forall k0 d, nth k0 used1 d = if Nat.eqb k0 (Z.to_nat e) then 1 + 1 else nth k0 used d) ->
+    zlen used1 = zlen used ->
+    inv j (k + 1) x par1 used1.
+  Proof.
+    intros INV Ck Ge Re Cx ZU NA LA NA' LA'.
+    destruct (edge_fin e Re) as [El [Er [Rlr [RL [RP RC]]]]].
+    assert (ZO : zat OO k = e) by (apply zat_aget; assumption).
+    destruct INV as [Ij Ik Ix Lp Lu Cn Us Pa A1 Dj Rg oI oO sI sO].
+    assert (ACT : act j k e).
+    { unfold act. pose proof (Cn e). pose proof (Us e Re). pose proof (cO_nonneg k e). lia. }
+    destruct ACT as [AI AO].
+    assert (CO' : forall e', cO (k + 1) e' = cO k e' + (if Z.eq_dec e e' then 1 else 0)) by (intro; apply cO_succ; assumption).
+    constructor; try assumption; try lia.
+    + intro e'. rewrite CO'. specialize (Cn e'). destruct (Z.eq_dec e e'); [subst; lia|lia].
+    + intros e' Re'. rewrite CO'. rewrite (nth_upd _ _ _ _ NA') by lia.
+      destruct (Z.eq_dec e' e), (Z.eq_dec e e'); subst; try congruence.
+      * lia.
+      * rewrite (Us e' Re'). lia.
+    + intros u Ru. rewrite (nth_upd _ _ _ _ NA) by lia. unfold TSK_NULL.
+      destruct (Z.eq_dec u (ec e)).
+      * left. split; [reflexivity|]. intros e' [B1 B2] EQ. rewrite CO' in B2.
+        destruct (Z.eq_dec e e'); [pose proof (cO_nonneg k e'); lia|].
+        apply n. symmetry. apply A1; [split; [assumption|lia]|split; assumption|congruence].
+      * destruct (Pa u Ru) as [[P1 P2]|[e'' [[B1 B2] [B3 B4]]]].
+        -- left. split; [assumption|]. intros e' [B1 B2]. apply P2. split; [assumption|].
+           rewrite CO' in B2. pose proof (cO_nonneg k e').
+           destruct (Z.eq_dec e e'); lia.
+        -- right. exists e''. split; [|split; assumption]. split; [assumption|]. rewrite CO'.
+           destruct (Z.eq_dec e e''); [subst; congruence|lia].
+    + intros e1 e2 [B1 B2] [B3 B4] EQ. rewrite CO' in B2, B4.
+      pose proof (cO_nonneg k e1). pose proof (cO_nonneg k e2).
+      apply A1; [split| split|assumption]; try assumption;
+      destruct (Z.eq_dec e e1), (Z.eq_dec e e2); lia.
+    + intros e' Ce. rewrite CO' in Ce. destruct (Z.eq_dec e e'); [subst; lia|]. apply oO. lia.
+    + intros a Ra. destruct (Z.eq_dec a k); [|apply sO; lia]. subst a. rewrite ZO.
+      assert (Q := cO_prev k (k - 1) ltac:(lia) ltac:(lia)). apply oO in Q. lia.
+  Qed.
+
   Lemma out_loop_inv j x fuel : forall k par used k' par' used',
     inv j k x par used ->
     out_loop t OO fuel (Fin x) k par used = Ok (k', par', used') ->
@@ -166,47 +208,19 @@ Section SweepSound.
     destruct (HI k ltac:(destruct INV; lia)) as [_ [e0 [Ge0 Re]]]. rewrite Ge in Ge0. inversion Ge0; subst e0.
     destruct (edge_fin e Re) as [El [Er [Rlr [RL [RP RC]]]]].
     assert (Er' := fat_aget _ _ _ Gr). rewrite Er in Er'. subst r.
-    assert (ZO : zat OO k = e) by (apply zat_aget; assumption).
     simpl in H. destruct (erz e =? x) eqn:Cx.
-    2:{ inversion H; subst. split; [assumption|]. split; [lia|]. intros _. b2z. assumption. }
+    2:{ inversion H; subst. split; [assumption|]. split; [lia|]. intros _. b2z.
+        rewrite (zat_aget _ _ _ Ge). assumption. }
     b2z. stepn H u Gu. stepc H Bu. stepn H c Gc. stepn H par1 Gp. stepn H used1 Gus.
     assert (EC : ec e = c) by (unfold ec; apply zat_aget; assumption). subst c.
     assert (ZU : zat used e = u) by (apply zat_aget; assumption). b2z. subst u.
-    destruct INV as [Ij Ik Ix Lp Lu Cn Us Pa A1 Dj Rg oI oO sI sO].
-    assert (ACT : act j k e).
-    { unfold act. pose proof (Cn e). pose proof (Us e Re). pose proof (cO_nonneg k e). lia. }
-    destruct ACT as [AI AO].
     destruct (aset_cases par (ec e) TSK_NULL) as [[p' [A [RA [LA NA]]]]|[A _]]; rewrite A in Gp; [|discriminate].
     inversion Gp; subst p'. clear Gp A.
     destruct (aset_cases used e (1 + 1)) as [[u' [A [RA' [LA' NA']]]]|[A _]]; rewrite A in Gus; [|discriminate].
     inversion Gus; subst u'. clear Gus A.
-    assert (CO' : forall e', cO (k + 1) e' = cO k e' + (if Z.eq_dec e e' then 1 else 0)) by (intro; apply cO_succ; assumption).
     apply IH in H.
     - destruct H as [H1 [H2 H3]]. split; [assumption|]. split; [lia|assumption].
-    - constructor; try assumption; try lia.
-      + intro e'. rewrite CO'. specialize (Cn e'). destruct (Z.eq_dec e e'); [subst; lia|lia].
-      + intros e' Re'. rewrite CO'. rewrite (nth_upd _ _ _ _ NA') by lia.
-        destruct (Z.eq_dec e' e), (Z.eq_dec e e'); subst; try congruence.
-        * lia.
-        * rewrite (Us e' Re'). lia.
-      + intros u Ru. rewrite (nth_upd _ _ _ _ NA) by lia. unfold TSK_NULL.
-        destruct (Z.eq_dec u (ec e)).
-        * left. split; [reflexivity|]. intros e' [B1 B2] EQ. rewrite CO' in B2.
-          destruct (Z.eq_dec e e'); [pose proof (cO_nonneg k e'); lia|].
-          apply n. symmetry. apply A1; [split; [assumption|lia]|split; assumption|congruence].
-        * destruct (Pa u Ru) as [[P1 P2]|[e'' [[B1 B2] [B3 B4]]]].
-          -- left. split; [assumption|]. intros e' [B1 B2]. apply P2. split; [assumption|].
-             rewrite CO' in B2. pose proof (cO_nonneg k e').
-             destruct (Z.eq_dec e e'); lia.
-          -- right. exists e''. split; [|split; assumption]. split; [assumption|]. rewrite CO'.
-             destruct (Z.eq_dec e e''); [subst; congruence|lia].
-      + intros e1 e2 [B1 B2] [B3 B4] EQ. rewrite CO' in B2, B4.
-        pose proof (cO_nonneg k e1). pose proof (cO_nonneg k e2).
-        apply A1; [split| split|assumption]; try assumption;
-        destruct (Z.eq_dec e e1), (Z.eq_dec e e2); lia.
-      + intros e' Ce. rewrite CO' in Ce. destruct (Z.eq_dec e e'); [subst; lia|]. apply oO. lia.
-      + intros a Ra. destruct (Z.eq_dec a k); [|apply sO; lia]. subst a. rewrite ZO.
-        assert (Q := cO_prev k (k - 1) ltac:(lia) ltac:(lia)). apply oO in Q. lia.
+    - eapply out_step_inv; eauto.
   Qed.
 
   (* ---- the invariant of the site / mutation cursors ---- *)
@@ -221,6 +235,76 @@ Section SweepSound.
   }.
 
   (* ---- in_loop: edges entering at x ---- *)
+  Lemma in_step_inv j k x par used e par1 used1 :
+    inv j k x par used -> j < ne -> aget II j = Ok e -> 0 <= e < ne -> elz e = x -> zat used e = 0 ->
+    zat par (ec e) = -1 ->
+    (forall k0 d, nth k0 used1 d = if Nat.eqb k0 (Z.to_nat e) then 0 + 1 else nth k0 used d) ->
+    zlen used1 = zlen used ->
+    (forall k0 d, nth k0 par1 d = if Nat.eqb k0 (Z.to_nat (ec e)) then ep e else nth k0 par d) ->
+    zlen par1 = zlen par ->
+    inv (j + 1) k x par1 used1.
+  Proof.
+    intros INV Cj Ge Re Cx ZU Bpc NA' LA' NA LA.
+    destruct (edge_fin e Re) as [El [Er [Rlr [RL [RP RC]]]]].
+    assert (ZI : zat II j = e) by (apply zat_aget; assumption).
+    destruct INV as [Ij Ik Ix Lp Lu Cn Us Pa A1 Dj Rg oI oO sI sO].
+    assert (C0 : cI j e = 0 /\ cO k e = 0).
+    { pose proof (Cn e). pose proof (Us e Re). pose proof (cO_nonneg k e). pose proof (cI_nonneg j e). lia. }
+    destruct C0 as [CI0 CO0].
+    assert (NOACT : forall e', act j k e' -> ec e' <> ec e).
+    { destruct (Pa (ec e) RC) as [[_ P2]|[e'' [[B1 B2] [_ P4]]]]; [exact P2|]. exfalso.
+      destruct (edge_fin e'' (Rg e'' ltac:(lia))) as [_ [_ [_ [_ [RP'' _]]]]]. lia. }
+    assert (CI' : forall e', cI (j + 1) e' = cI j e' + (if Z.eq_dec e e' then 1 else 0)) by (intro; apply cI_succ; assumption).
+    constructor; try assumption; try lia.
+    + intro e'. rewrite CI'. specialize (Cn e'). destruct (Z.eq_dec e e'); [subst; lia|lia].
+    + intros e' Re'. rewrite CI'. rewrite (nth_upd _ _ _ _ NA') by lia.
+      destruct (Z.eq_dec e' e), (Z.eq_dec e e'); subst; try congruence.
+      * lia.
+      * rewrite (Us e' Re'). lia.
+    + intros u Ru. rewrite (nth_upd _ _ _ _ NA) by lia.
+      destruct (Z.eq_dec u (ec e)).
+      * right. exists e. split; [split; [rewrite CI'; destruct (Z.eq_dec e e); [lia|congruence]|assumption]|].
+        split; [congruence|reflexivity].
+      * destruct (Pa u Ru) as [[P1 P2]|[e'' [[B1 B2] [B3 B4]]]].
+        -- left. split; [assumption|]. intros e' [B1 B2]. rewrite CI' in B1.
+           destruct (Z.eq_dec e e'); [subst; congruence|]. apply P2. split; [lia|assumption].
+        -- right. exists e''. split; [|split; assumption]. split; [|assumption]. rewrite CI'.
+           destruct (Z.eq_dec e e''); [subst; lia|lia].
+    + intros e1 e2 [B1 B2] [B3 B4] EQ. rewrite CI' in B1, B3.
+      destruct (Z.eq_dec e e1), (Z.eq_dec e e2); subst; try reflexivity.
+      * exfalso. apply (NOACT e2); [split; [lia|assumption]|congruence].
+      * exfalso. apply (NOACT e1); [split; [lia|assumption]|congruence].
+      * apply A1; [split; [lia|assumption]|split; [lia|assumption]|assumption].
+    + (* disjointness of the new edge with every earlier edge of the same child *)
+      assert (NEW : forall e2, cI j e2 >= 1 -> ec e2 = ec e -> erz e2 <= elz e).
+      { intros e2 C2 EQ. destruct (Z.eq_dec (cO k e2) 0) as [Z0|NZ].
+        - exfalso. apply (NOACT e2); [split; [pose proof (Cn e2); lia|assumption]|assumption].
+        - pose proof (cO_nonneg k e2). rewrite Cx. apply oO. lia. }
+      intros e1 e2 C1 C2 NE EQ. rewrite CI' in C1, C2.
+      destruct (Z.eq_dec e e1), (Z.eq_dec e e2); subst; try congruence.
+      * right. apply NEW; [lia|congruence].
+      * left. apply NEW; [lia|congruence].
+      * apply Dj; try assumption; lia.
+    + intros e' Ce. rewrite CI' in Ce. destruct (Z.eq_dec e e'); [subst; assumption|]. apply Rg. lia.
+    + intros e' Ce. rewrite CI' in Ce. destruct (Z.eq_dec e e'); [subst; lia|]. apply oI. lia.
+    + intros a Ra. destruct (Z.eq_dec a j); [|apply sI; lia]. subst a. rewrite ZI.
+      assert (Q := cI_prev j (j - 1) ltac:(lia) ltac:(lia)). apply oI in Q. lia.
+  Qed.
+
+  Lemma in_step_minv j x sc mc e :
+    minv j x x sc mc -> aget II j = Ok e -> elz e = x -> minv (j + 1) x x sc mc.
+  Proof.
+    intros MINV Ge Cx.
+    assert (CI' : forall e', cI (j + 1) e' = cI j e' + (if Z.eq_dec e e' then 1 else 0)) by (intro; apply cI_succ; assumption).
+    destruct MINV as [Msc Mmc Mpos Mnext Mcons Mnextm MG].
+    constructor; try assumption.
+    intros m Rm K e' Re' EQ COV. rewrite CI'.
+    destruct (Z.eq_dec e e').
+    + subst e'. exfalso. specialize (Mcons m Rm). specialize (Mpos (ms m)).
+      destruct (HMR m ltac:(unfold M in *; lia)) as [RS _]. fold (ms m) in RS. lia.
+    + destruct (MG m Rm K e' Re' EQ COV); [left; assumption|right; lia].
+  Qed.
+
   Lemma in_loop_inv k x sc mc fuel : forall j par used j' par' used',
     inv j k x par used -> minv j x x sc mc ->
     in_loop t II fuel (Fin x) j par used = Ok (j', par', used') ->
@@ -233,70 +317,23 @@ Section SweepSound.
     destruct (HI j ltac:(destruct INV; lia)) as [[e0 [Ge0 Re]] _]. rewrite Ge in Ge0. inversion Ge0; subst e0.
     destruct (edge_fin e Re) as [El [Er [Rlr [RL [RP RC]]]]].
     assert (El' := fat_aget _ _ _ Gl). rewrite El in El'. subst l.
-    assert (ZI : zat II j = e) by (apply zat_aget; assumption).
     simpl in H. destruct (elz e =? x) eqn:Cx.
-    2:{ inversion H; subst. split; [assumption|]. split; [assumption|]. split; [lia|]. intros _. b2z. assumption. }
+    2:{ inversion H; subst. split; [assumption|]. split; [assumption|]. split; [lia|]. intros _. b2z.
+        rewrite (zat_aget _ _ _ Ge). assumption. }
     b2z. stepn H u Gu. stepc H Bu. stepn H used1 Gus. stepn H c Gc. stepn H pc Gpc. stepc H Bpc.
     stepn H p Gp. stepn H par1 Gpar.
     assert (EC : ec e = c) by (unfold ec; apply zat_aget; assumption). subst c.
     assert (EP : ep e = p) by (unfold ep; apply zat_aget; assumption). subst p.
     assert (ZU : zat used e = u) by (apply zat_aget; assumption). b2z. subst u.
     assert (ZP : zat par (ec e) = pc) by (apply zat_aget; assumption). unfold TSK_NULL in *. subst pc.
-    destruct INV as [Ij Ik Ix Lp Lu Cn Us Pa A1 Dj Rg oI oO sI sO].
-    assert (C0 : cI j e = 0 /\ cO k e = 0).
-    { pose proof (Cn e). pose proof (Us e Re). pose proof (cO_nonneg k e). pose proof (cI_nonneg j e). lia. }
-    destruct C0 as [CI0 CO0].
-    assert (NOACT : forall e', act j k e' -> ec e' <> ec e).
-    { destruct (Pa (ec e) RC) as [[_ P2]|[e'' [[B1 B2] [_ P4]]]]; [exact P2|]. exfalso.
-      destruct (edge_fin e'' (Rg e'' ltac:(lia))) as [_ [_ [_ [_ [RP'' _]]]]]. b2z. lia. }
     destruct (aset_cases used e (0 + 1)) as [[u' [A [RA' [LA' NA']]]]|[A _]]; rewrite A in Gus; [|discriminate].
     inversion Gus; subst u'. clear Gus A.
     destruct (aset_cases par (ec e) (ep e)) as [[p' [A [RA [LA NA]]]]|[A _]]; rewrite A in Gpar; [|discriminate].
     inversion Gpar; subst p'. clear Gpar A.
-    assert (CI' : forall e', cI (j + 1) e' = cI j e' + (if Z.eq_dec e e' then 1 else 0)) by (intro; apply cI_succ; assumption).
-    destruct MINV as [Msc Mmc Mpos Mnext Mcons Mnextm MG].
     apply IH in H.
     - destruct H as [H1 [H2 [H3 H4]]]. split; [assumption|]. split; [assumption|]. split; [lia|assumption].
-    - constructor; try assumption; try lia.
-      + intro e'. rewrite CI'. specialize (Cn e'). destruct (Z.eq_dec e e'); [subst; lia|lia].
-      + intros e' Re'. rewrite CI'. rewrite (nth_upd _ _ _ _ NA') by lia.
-        destruct (Z.eq_dec e' e), (Z.eq_dec e e'); subst; try congruence.
-        * lia.
-        * rewrite (Us e' Re'). lia.
-      + intros u Ru. rewrite (nth_upd _ _ _ _ NA) by lia.
-        destruct (Z.eq_dec u (ec e)).
-        * right. exists e. split; [split; [rewrite CI'; destruct (Z.eq_dec e e); [lia|congruence]|assumption]|].
-          split; [congruence|reflexivity].
-        * destruct (Pa u Ru) as [[P1 P2]|[e'' [[B1 B2] [B3 B4]]]].
-          -- left. split; [assumption|]. intros e' [B1 B2]. rewrite CI' in B1.
-             destruct (Z.eq_dec e e'); [subst; congruence|]. apply P2. split; [lia|assumption].
-          -- right. exists e''. split; [|split; assumption]. split; [|assumption]. rewrite CI'.
-             destruct (Z.eq_dec e e''); [subst; lia|lia].
-      + intros e1 e2 [B1 B2] [B3 B4] EQ. rewrite CI' in B1, B3.
-        destruct (Z.eq_dec e e1), (Z.eq_dec e e2); subst; try reflexivity.
-        * exfalso. apply (NOACT e2); [split; [lia|assumption]|congruence].
-        * exfalso. apply (NOACT e1); [split; [lia|assumption]|congruence].
-        * apply A1; [split; [lia|assumption]|split; [lia|assumption]|assumption].
-      + (* disjointness of the new edge with every earlier edge of the same child *)
-        assert (NEW : forall e2, cI j e2 >= 1 -> ec e2 = ec e -> erz e2 <= elz e).
-        { intros e2 C2 EQ. destruct (Z.eq_dec (cO k e2) 0) as [Z0|NZ].
-          - exfalso. apply (NOACT e2); [split; [pose proof (Cn e2); lia|assumption]|assumption].
-          - pose proof (cO_nonneg k e2). rewrite Cx. apply oO. lia. }
-        intros e1 e2 C1 C2 NE EQ. rewrite CI' in C1, C2.
-        destruct (Z.eq_dec e e1), (Z.eq_dec e e2); subst; try congruence.
-        * right. apply NEW; [lia|congruence].
-        * left. apply NEW; [lia|congruence].
-        * apply Dj; try assumption; lia.
-      + intros e' Ce. rewrite CI' in Ce. destruct (Z.eq_dec e e'); [subst; assumption|]. apply Rg. lia.
-      + intros e' Ce. rewrite CI' in Ce. destruct (Z.eq_dec e e'); [subst; lia|]. apply oI. lia.
-      + intros a Ra. destruct (Z.eq_dec a j); [|apply sI; lia]. subst a. rewrite ZI.
-        assert (Q := cI_prev j (j - 1) ltac:(lia) ltac:(lia)). apply oI in Q. lia.
-    - constructor; try assumption.
-      intros m Rm K e' Re' EQ COV. rewrite CI'.
-      destruct (Z.eq_dec e e').
-      + subst e'. exfalso. specialize (Mcons m Rm). specialize (Mpos (ms m)).
-        destruct (HMR m ltac:(unfold M in *; lia)) as [RS _]. fold (ms m) in RS. lia.
-      + destruct (MG m Rm K e' Re' EQ COV); [left; assumption|right; lia].
+    - eapply in_step_inv; eauto.
+    - eapply in_step_minv; eauto.
   Qed.
 
   (* ---- mutations at one site ---- *)
